@@ -63,6 +63,29 @@ theorem pack_injective (t : Ty) (v v' : Val) (r r' : Bytes) (hv : wt t v = true)
     (h : pack t v ++ r = pack t v' ++ r') : v = v' ∧ r = r' :=
   pack_inj t v v' r r' hv hv' h
 
+/-- PACK ∘ UNPACK = id on types without `unique_ptr` and associative containers: whatever
+buffer UNPACK accepts (into ANY target), the value it returns is well typed and packs to
+exactly the bytes consumed — every accepted buffer is canonical, nothing is read that PACK
+would not have written. -/
+theorem repack_accepted_buffer (t : Ty) (tgt v : Val) (bs rest : Bytes) (hfl : flat t = true)
+    (h : unpack t tgt bs = .ok (v, rest)) : pack t v ++ rest = bs ∧ wt t v = true :=
+  pack_unpack t tgt v bs rest hfl h
+
+/-- …and it consumed exactly PACKSIZE bytes. -/
+theorem unpack_consumed_size (t : Ty) (tgt v : Val) (bs rest : Bytes) (hfl : flat t = true)
+    (h : unpack t tgt bs = .ok (v, rest)) : bs.length = size t v + rest.length :=
+  unpack_consumed t tgt v bs rest hfl h
+
+/-- `flat` is necessary: a `unique_ptr` flag other than 0/1 is accepted as "null" (the code
+tests `ptr == 1`), and a set accepts entries in any order, so those buffers are not canonical. -/
+example : unpack (.uptr (.pod 1)) .none [5, 0, 0, 0] = .ok (.none, []) ∧ pack (.uptr (.pod 1)) .none = [0, 0, 0, 0] := by
+  decide +kernel
+
+example : unpack (.set true (.pod 1)) (.list []) [2, 0, 0, 0, 0, 0, 0, 0, 9, 3] = .ok (.list [.pod [3], .pod [9]], []) := by
+  decide +kernel
+
+example : flat (.struct [.str, .vec (.opt (.int 4)), .var [.pod 8, .tup [.vecBool, .arr 3 (.pod 2)]]]) = true := by decide
+
 /-- The code as it is packs `time_point` (milliseconds) as `time_t`: the time read back is the
 time packed iff it is a whole number of seconds.  (Finding F7: sub-second report steps.) -/
 theorem time_point_roundtrip_iff (ms : Nat) (rest : Bytes) (h : ms / 1000 < 256 ^ 8) :
@@ -161,37 +184,29 @@ def requiredClasses : List String := [
   let e := eqUncovered eqExceptions classes
   if !e.isEmpty then
     throw (IO.userError s!"C11 eq_covers_serialized: serialized member(s) not compared by operator==: {showPairs e}")
+  if !(badKeys classes).isEmpty then
+    throw (IO.userError s!"C11: translator/class-key mismatch for {badKeys classes}")
   let s := staleExceptions exceptions classes ++ staleEqExceptions eqExceptions classes
   if !s.isEmpty then
     throw (IO.userError s!"C11 exceptions_tight: stale exception(s): {showPairs s}")
 
-/-- all four table obligations in one term, so that the kernel evaluates the table once -/
-def tableReport : List (String × String) × List (String × String) × List (String × String) × List (String × String) × List String :=
-  (uncovered (exceptions ++ knownUnserialized) classes, eqUncovered eqExceptions classes,
-   staleExceptions exceptions classes, staleEqExceptions eqExceptions classes, missing requiredClasses classes)
-
-theorem table_clean : tableReport = ([], [], [], [], []) := by decide +kernel
-
 /-- Every data member of every class reachable from the root classes is named in that
 class's `serializeOp`, or is on the exception lists above. -/
-theorem members_covered : uncovered (exceptions ++ knownUnserialized) classes = [] :=
-  (Prod.mk.inj table_clean).1
+theorem members_covered : uncovered (exceptions ++ knownUnserialized) classes = [] := by decide +kernel
 
 /-- Every serialized member is also compared by `operator==` (or is on `eqExceptions`), so a
 member forgotten in both places cannot hide behind `==`. -/
-theorem eq_covers_serialized : eqUncovered eqExceptions classes = [] :=
-  (Prod.mk.inj (Prod.mk.inj table_clean).2).1
+theorem eq_covers_serialized : eqUncovered eqExceptions classes = [] := by decide +kernel
 
 /-- The exception lists are tight: every entry names an existing member that really is not
 serialized / not compared (a stale entry would mask a later regression). -/
 theorem exceptions_tight :
-    staleExceptions exceptions classes = [] ∧ staleEqExceptions eqExceptions classes = [] :=
-  ⟨(Prod.mk.inj (Prod.mk.inj (Prod.mk.inj table_clean).2).2).1,
-   (Prod.mk.inj (Prod.mk.inj (Prod.mk.inj (Prod.mk.inj table_clean).2).2).2).1⟩
+    staleExceptions exceptions classes = [] ∧ staleEqExceptions eqExceptions classes = [] := by decide +kernel
 
-/-- All classes named by the property are covered by the table. -/
-theorem roots_present : missing requiredClasses classes = [] :=
-  (Prod.mk.inj (Prod.mk.inj (Prod.mk.inj (Prod.mk.inj table_clean).2).2).2).2
+/-- All classes named by the property are covered by the table.  (Classes are looked up by the
+numeric `key` first and by name second, so a wrong key can only make a lookup fail — i.e. make
+these theorems fail — never succeed wrongly.) -/
+theorem roots_present : missing requiredClasses classes = [] := by decide +kernel
 
 /-! ## non-vacuity -/
 
